@@ -4,8 +4,8 @@
    event's cursor takes that consumer to the never-disconnected consumer of the later state. *)
 From Coq Require Import Sorted.
 From BV Require Import Base.Prelude Model.Block Model.ForkDB Model.Forkable Model.ForkableLookups Model.Burst Model.Hub
-  Spec.Consumer Spec.Universe Check.Fk_Check Check.Burst_Check Spec.C09_Spec Spec.C05_Spec Spec.C05_History_Spec
-  Proofs.C09_Store Proofs.C09_Segment Proofs.C09_Proofs Proofs.C05_Fast Proofs.C05_Forked
+  Spec.Consumer Spec.Universe Check.Fk_Check Check.Burst_Check Spec.C09_Spec Spec.C05_Spec Spec.C05_Through_Spec Spec.C05_History_Spec
+  Proofs.C09_Store Proofs.C09_Segment Proofs.C09_Proofs Proofs.C05_Fast Proofs.C05_Forked Proofs.C05_Final
   Proofs.Fk.StoreFacts Proofs.Fk.WalkFacts Proofs.Fk.LoopFacts Proofs.Fk.StoreChange Proofs.Fk.SwitchFacts
   Proofs.Fk.FixedLib Proofs.Fk.MovingLibStore Proofs.Fk.MovingLibWalk Proofs.Fk.MovingLibLoops
   Proofs.Fk.MovingLibInv Proofs.Fk.MovingLibFin Proofs.Fk.MovingLibDisc
@@ -586,6 +586,51 @@ Section Life.
       assert (Hblkin' : block_in (ri (cu_blk cur)) (s0 :: sg') = false) by (rewrite Hcbk; exact Hblkin).
       destruct (seg_stored_junction _ _ _ Hst (branch_to_junction _ _ _ _ _ Hbr')) as [je Hje].
       eexists. exact (loop_forked s hd (s0 :: sg') cur (length (store (db s))) Wst Hst Hlibin' Hblkin' path j je Hbr' Hje).
+    Qed.
+
+    (* the cursor of an Irreversible event (a final-blocks-only consumer): served whenever the announced block is
+       still on the retained chain; the burst's irreversible events are exactly the final blocks after it *)
+    Lemma final_at e P F0 hd sg :
+      estep e = SIrr -> Fin = P ++ F0 -> libblk a P = eblk e -> In (eblk e) U ->
+      ecblk e = bref (eblk e) -> elib e = bref (eblk e) ->
+      linked (bid (eblk e)) F0 -> Forall (fun x => In x U /\ bnum (eblk e) < bnum x) F0 ->
+      last_sent s = Some hd -> complete_segment (db s) (bref hd) = Some (sg, true) ->
+      block_in (ri (elib e)) sg = true ->
+      exists evs, blocks_from_cursor s (ev_cursor e) = BOk evs /\ map eblk (irr_events evs) = F0.
+    Proof.
+      intros HeI HF HL HeU Hcb Hlb Hl0 HF0 Hls E Hin.
+      set (cur := ev_cursor e).
+      rewrite Hlb in Hin. cbn [bref ri] in Hin. rewrite <- HL in Hin, HeU, Hl0, HF0.
+      destruct (above_lib_part hd sg true P F0 Hls E HF HeU Hl0 HF0 Hin)
+        as (lo & xL & hi & p & Hsplit & HbL & HnL & HsL & HS & HH & HpU & Hlo & Hhi & Hstd & Hlhi & Hsorted).
+      rewrite HL in HbL, HnL, HsL.
+      pose proof (inv_wf_state a s Fin S Ha HI) as W.
+      pose proof (i_db U _ _ _ _ _ HI) as Hd.
+      destruct post_head as (hd' & p0 & Hls' & _ & _ & _ & _ & _ & _ & HFin). rewrite Hls in Hls'. injection Hls' as <-.
+      assert (Hhc : head_chain s hd sg) by (split; [exact (di_has_lib U (R a) _ Hd) | split; [exact Hls | exact E]]).
+      assert (Hcbk : cu_blk cur = bref (eblk e)) by exact Hcb.
+      assert (Hcl : cu_lib cur = bref (eblk e)) by exact Hlb.
+      assert (Hmu : matches_undo (cu_step cur) = false) by (unfold cur, ev_cursor; cbn [cu_step]; rewrite HeI; reflexivity).
+      assert (Hlx : exists x, In x sg /\ sid x = ri (cu_lib cur) /\ snum x = rn (cu_lib cur)).
+      { exists xL. split; [rewrite Hsplit; apply in_or_app; right; left; reflexivity|]. rewrite Hcl. cbn [bref ri rn]. auto. }
+      assert (Hs1 : sid xL = ri (cu_blk cur)) by (rewrite Hcbk; exact HsL).
+      assert (Hs2 : snum xL = rn (cu_blk cur)) by (rewrite Hcbk; exact HnL).
+      destruct (c05_final_only_proof s hd sg cur lo xL hi W Hhc Hmu Hsplit Hs1 Hs2 Hlx) as (HB & _ & _ & _ & _ & Hfinal).
+      destruct Hfinal as (_ & _ & _ & Hirr); [rewrite Hcl, Hcbk; reflexivity|].
+      eexists. split; [exact HB|]. rewrite Hirr.
+      (* the final part of hi *)
+      assert (HstdH : Forall seg_std hi) by (exact (Forall_inv_tail Hstd)).
+      destruct (inv_lib U cfg a s Fin S Ha HI) as [_ Hlib].
+      rewrite (filter_ext_in' (final_now s) (fun x => (fun n => n <=? bnum (libblk a Fin)) (snum x))).
+      2:{ intros x _. unfold final_now. rewrite Hlib. reflexivity. }
+      rewrite (filter_map_std (fun n => n <=? bnum (libblk a Fin)) hi HstdH), HH.
+      fold (upto (bnum (libblk a Fin)) (F0 ++ map eb p)). unfold upto. rewrite filter_app.
+      fold (upto (bnum (libblk a Fin)) F0) (upto (bnum (libblk a Fin)) (map eb p)).
+      rewrite upto_all, upto_none, app_nil_r; [reflexivity | |].
+      - eapply Forall_impl; [|exact HpU]. cbn beta. tauto.
+      - apply Forall_forall. intros x0 Hx0. rewrite Forall_forall in HFin.
+        assert (Hin0 : In x0 Fin) by (rewrite HF; apply in_or_app; right; exact Hx0).
+        destruct (HFin x0 Hin0) as [_ G]. exact G.
     Qed.
   End AtState.
 End Life.
